@@ -6,6 +6,8 @@ use crate::{Marshal, Signature, Unmarshal};
 
 #[cfg(feature = "verif_hooks")]
 use crate::verif_hooks::nix_shim as nix;
+#[cfg(feature = "verif_hooks")]
+use crate::verif_hooks::std_shim as std;
 
 use std::io;
 use std::os::unix::io::RawFd;
